@@ -146,8 +146,11 @@ def jobs(tier):
         for v in VARIANTS:
             for side in (0, 1):
                 for op in OPS:
-                    out.append({"harness": "restart", "params": {"flavour": f, "variant": v, "maxcut": 2 if q else 4, "offline": 1 if q else 2, "first": [side, op]},
+                    out.append({"harness": "restart", "params": {"flavour": f, "variant": v, "maxcut": 2 if q else 4, "offline": 1, "first": [side, op]},
                                 "label": "%s/%s/first=%d:%s" % (f, v, side, op)})
+                    if not q and f in ("oid", "path"):
+                        out.append({"harness": "restart", "params": {"flavour": f, "variant": v, "maxcut": 1, "offline": 2, "first": [side, op]},
+                                    "label": "%s/%s/2-offline/first=%d:%s" % (f, v, side, op)})
     return out
 
 
@@ -158,7 +161,7 @@ def meta(tier):
                        "engine over the same storage and accounts, drain. Oracles: intact storage - both roots equal (modulo '.conflicted'), no '.conflicted' for one-sided histories, a synced "
                        "untouched file is neither changed nor transferred again; cursor removed/rejected - everything created or modified before or during the outage is on both sides, the "
                        "untouched file is not re-transferred (deletions during the outage are not required to propagate: a walk cannot see them).",
-        "bounds": {"operations": OPS, "cut": "0..2 (0..4) engine steps after the first operation", "offline operations": "1 (2)", "variants": VARIANTS, "flavours": "oid, path (thorough + mixed, case-insensitive)"},
+        "bounds": {"operations": OPS, "cut": "0..2 (0..4) engine steps after the first operation", "offline operations": "1 (thorough: also 2 with a cut of 0..1 steps on two flavours)", "variants": VARIANTS, "flavours": "oid, path (thorough + mixed, case-insensitive)"},
         "symbolic": ["first operation (split over jobs), cut position and the steps before it, offline operations"],
         "outside": ["SqliteStorage file durability (C09 covers its map semantics)", "stops in the middle of a step (C07)", "longer histories"],
         "stubs": ["engine lab determinisation; the accounts' event logs persist across the restart, the provider objects' cursor position is reset to 'latest'"],
